@@ -355,3 +355,8 @@ func VerifyRaw(certDER []byte, sigAlg string, msg, sig []byte) error {
 }
 
 var _ = crypto.SHA256
+
+// Inflate decodes a raw DEFLATE stream.
+func Inflate(b []byte) ([]byte, error) {
+	return io.ReadAll(flate.NewReader(bytes.NewReader(b)))
+}
